@@ -644,6 +644,18 @@ func (r *rewriter) exprs(root ast.Node) {
 				noReplace[id] = true
 			}
 		case *ast.CallExpr:
+			// append(s, ...): an in-place append writes into s's array
+			if r.isBuiltin(n.Fun, "append") && len(n.Args) >= 2 {
+				if t := r.info.TypeOf(n.Args[0]); t != nil {
+					if _, isSlice := t.Underlying().(*types.Slice); isSlice {
+						if tv, ok := r.info.Types[n.Args[0]]; ok && !tv.IsNil() {
+							r.usedHooks = true
+							r.stats["append"]++
+							n.Args[0] = hook("Append", n.Args[0], r.site(n.Pos(), "append to "+exprName(n.Args[0])))
+						}
+					}
+				}
+			}
 			if r.isBuiltin(n.Fun, "delete") && len(n.Args) == 2 {
 				writeCtx[n.Args[0]] = true // marks the map operand
 			}
@@ -775,6 +787,18 @@ func (r *rewriter) exprs(root ast.Node) {
 			r.stats["map-access"]++
 			n.X = hook(fn, n.X, r.site(n.Pos(), "map "+exprName(n.X)))
 		case *ast.CallExpr:
+			// append(s, ...): an in-place append writes into s's array
+			if r.isBuiltin(n.Fun, "append") && len(n.Args) >= 2 {
+				if t := r.info.TypeOf(n.Args[0]); t != nil {
+					if _, isSlice := t.Underlying().(*types.Slice); isSlice {
+						if tv, ok := r.info.Types[n.Args[0]]; ok && !tv.IsNil() {
+							r.usedHooks = true
+							r.stats["append"]++
+							n.Args[0] = hook("Append", n.Args[0], r.site(n.Pos(), "append to "+exprName(n.Args[0])))
+						}
+					}
+				}
+			}
 			if r.isBuiltin(n.Fun, "delete") && len(n.Args) == 2 {
 				r.usedHooks = true
 				r.stats["map-access"]++
